@@ -695,6 +695,21 @@ func (tr *FnTr) copyCellsT(dobj, doff, srcArr, soff, cnt *Term, etag string) {
 		tr.st.Mem = tr.vc.Def("mem", Store(tr.st.Mem, dobj, a))
 		return
 	}
+	if mx, ok := upperBound(cnt); ok && mx <= 32 && !tr.top.refute {
+		// symbolic count with a small static bound (copy into a fixed-size array): conditional
+		// stores, no quantifier
+		a := old
+		src := tr.vc.Def("copy_src", srcArr)
+		oldD := tr.vc.Def("copy_old", old)
+		for k := int64(0); k < mx; k++ {
+			a = Store(a, Add(doff, Int(k)), Ite(Lt(Int(k), cnt), Select(src, Add(soff, Int(k))), Select(oldD, Add(doff, Int(k)))))
+			if etag != "" {
+				a.Name = etag
+			}
+		}
+		tr.st.Mem = tr.vc.Def("mem", Store(tr.st.Mem, dobj, a))
+		return
+	}
 	if tr.top.refute {
 		bound := tr.top.copyBound
 		if bound == 0 {
